@@ -400,10 +400,20 @@ func optionSemantics(w *World, r *Report, prop string) {
 			flow(x.Tuple, bs, fa, depth+1, seen)
 		case *ssa.Lookup:
 			if isOptions(x.X, bs) {
-				if k, ok := constString(x.Index); ok {
+				idx := x.Index
+				if p, ok := stripIdentity(idx).(*ssa.Parameter); ok {
+					if a, bound := bs[p]; bound {
+						idx = a
+					}
+				}
+				if k, ok := constString(idx); ok {
 					fa.keys[k] = true
 				} else {
 					fa.keys["<computed>"] = true
+				}
+				// a plain lookup yields the zero value for an option that was not written: that is a constant reaching the field
+				if !x.CommaOk && isStringType(x.Type()) {
+					fa.consts[`""`] = true
 				}
 				return
 			}
@@ -414,6 +424,23 @@ func optionSemantics(w *World, r *Report, prop string) {
 				flow(x.X, bs, sub, depth+1, seen)
 				flow(x.Y, bs, sub, depth+1, seen)
 				fa.unsafe = append(fa.unsafe, sub.unsafe...)
+				// the empty string (an option that was not written, read by a plain lookup) compared with a non-empty literal: the
+				// comparison's value for the missing option is a constant that reaches the field
+				if sub.consts[`""`] {
+					other := false
+					for c := range sub.consts {
+						if c != `""` {
+							other = true
+						}
+					}
+					if other {
+						if x.Op == token.EQL {
+							fa.consts["false"] = true
+						} else {
+							fa.consts["true"] = true
+						}
+					}
+				}
 				return
 			}
 			flow(x.X, bs, fa, depth+1, seen)
@@ -425,7 +452,7 @@ func optionSemantics(w *World, r *Report, prop string) {
 		case *ssa.ChangeType:
 			flow(x.X, bs, fa, depth+1, seen)
 		case *ssa.Call:
-			if h := x.Call.StaticCallee(); h != nil && h.Pkg == w.Model && h.Blocks != nil {
+			if h := x.Call.StaticCallee(); h != nil && pkgOfFunc(h) == w.Model && h.Blocks != nil {
 				nb := bindings{}
 				for k, val := range bs {
 					nb[k] = val
@@ -478,7 +505,7 @@ func optionSemantics(w *World, r *Report, prop string) {
 				}
 				flow(x.Val, j.bs, get(name), 0, map[ssa.Value]bool{})
 			case ssa.CallInstruction:
-				if h := x.Common().StaticCallee(); h != nil && h.Pkg == w.Model && h.Blocks != nil && !seenFn[h] {
+				if h := x.Common().StaticCallee(); h != nil && pkgOfFunc(h) == w.Model && h.Blocks != nil && !seenFn[h] {
 					seenFn[h] = true
 					nb := bindings{}
 					for k, val := range j.bs {
@@ -562,6 +589,9 @@ func isMembershipPredicate(f *ssa.Function) (bool, string) {
 		return false, "not a static call"
 	}
 	if strings.HasPrefix(f.String(), "slices.Contains") {
+		return true, ""
+	}
+	if ok, _ := membershipWrapper(f, 0); ok {
 		return true, ""
 	}
 	if f.Blocks == nil || len(f.Params) != 2 {
@@ -1592,10 +1622,22 @@ func wireBracketBalance(w *World, wc *wireCtx, r *Report, prop string, roles map
 		for _, fn := range wc.anchors[ga.Lang]["own"] {
 			cnt := 0
 			forEachInstr(fn, func(b *ssa.BasicBlock, ins ssa.Instruction) {
-				mu, ok := ins.(*ssa.MapUpdate)
-				if !ok || mu.Map.Type().Underlying().String() != "map[string][]byte" {
+				var muKey, muValue ssa.Value
+				if mu, ok := ins.(*ssa.MapUpdate); ok && mu.Map.Type().Underlying().String() == "map[string][]byte" {
+					muKey, muValue = mu.Key, mu.Value
+				} else if c, ok := ins.(*ssa.Call); ok {
+					// the store sits in a shared helper (`out.add(name, code)`): the call is the store, with the arguments that reach the
+					// helper's key and value
+					if h := c.Call.StaticCallee(); h != nil {
+						if ki, vi, ok := fileAdder(w, h); ok && ki < len(c.Call.Args) && vi < len(c.Call.Args) {
+							muKey, muValue = c.Call.Args[ki], c.Call.Args[vi]
+						}
+					}
+				}
+				if muKey == nil {
 					return
 				}
+				mu := struct{ Key, Value ssa.Value }{muKey, muValue}
 				isTestFile := false
 				for _, c := range stringConsts(mu.Key) {
 					if strings.Contains(strings.ToLower(c), "test") {
@@ -1684,6 +1726,9 @@ func predicateAcceptsEmptyList(f *ssa.Function) bool {
 	if f == nil || f.Blocks == nil || len(f.Params) != 2 {
 		return false
 	}
+	if ok, acceptsEmpty := membershipWrapper(f, 0); ok {
+		return acceptsEmpty
+	}
 	ok := false
 	forEachInstr(f, func(_ *ssa.BasicBlock, ins ssa.Instruction) {
 		ret, isRet := ins.(*ssa.Return)
@@ -1695,4 +1740,120 @@ func predicateAcceptsEmptyList(f *ssa.Function) bool {
 		}
 	})
 	return ok
+}
+
+var fileAdderMemo = map[*ssa.Function][3]int{}
+
+// fileAdder: h is a parser helper (not an emitter of a generator) whose body stores, into a map[string][]byte, under a key that is
+// one of its parameters, a value that is (the []byte conversion of) another parameter. Returns the two parameter indices.
+func fileAdder(w *World, h *ssa.Function) (int, int, bool) {
+	if m, ok := fileAdderMemo[h]; ok {
+		return m[0], m[1], m[2] == 1
+	}
+	res := [3]int{0, 0, 0}
+	if h.Blocks != nil && h.Pkg == w.Parser {
+		forEachInstr(h, func(_ *ssa.BasicBlock, ins ssa.Instruction) {
+			mu, ok := ins.(*ssa.MapUpdate)
+			if !ok || mu.Map.Type().Underlying().String() != "map[string][]byte" {
+				return
+			}
+			k := stripIdentity(mu.Key)
+			v := stripIdentity(mu.Value)
+			if cv, ok := v.(*ssa.Convert); ok {
+				v = stripIdentity(cv.X)
+			}
+			ki, vi := -1, -1
+			for i, p := range h.Params {
+				if k == ssa.Value(p) {
+					ki = i
+				}
+				if v == ssa.Value(p) {
+					vi = i
+				}
+			}
+			if ki >= 0 && vi >= 0 {
+				res = [3]int{ki, vi, 1}
+			}
+		})
+	}
+	fileAdderMemo[h] = res
+	return res[0], res[1], res[2] == 1
+}
+
+// membershipWrapper: f(list, x) bool is written in terms of another membership predicate: its one return value is
+// `member(list, x)`, or `len(list) == 0 || member(list, x)` (an empty list accepts anything). Reports whether it is one and
+// whether it lets the empty list pass.
+func membershipWrapper(f *ssa.Function, depth int) (bool, bool) {
+	if f == nil || f.Blocks == nil || len(f.Params) != 2 || depth > 2 {
+		return false, false
+	}
+	if _, ok := f.Params[0].Type().Underlying().(*types.Slice); !ok {
+		return false, false
+	}
+	var rets []*ssa.Return
+	forEachInstr(f, func(_ *ssa.BasicBlock, ins ssa.Instruction) {
+		if r, ok := ins.(*ssa.Return); ok {
+			rets = append(rets, r)
+		}
+	})
+	if len(rets) != 1 || len(rets[0].Results) != 1 {
+		return false, false
+	}
+	acceptsEmpty := false
+	// is the edge from pred into blk the "list is empty" edge of a len(list) test?
+	emptyEdge := func(pred, blk *ssa.BasicBlock) bool {
+		cond := branchCond(pred)
+		if cond == nil {
+			return false
+		}
+		op, nonEmptySucc, ok := lenGtZero(cond)
+		if !ok || stripIdentity(op) != ssa.Value(f.Params[0]) {
+			return false
+		}
+		return pred.Succs[1-nonEmptySucc] == blk && pred.Succs[0] != pred.Succs[1]
+	}
+	var member func(v ssa.Value, d int) bool
+	member = func(v ssa.Value, d int) bool {
+		if d > 4 {
+			return false
+		}
+		switch x := v.(type) {
+		case *ssa.Call:
+			g := x.Call.StaticCallee()
+			if g == nil || len(x.Call.Args) != 2 || stripIdentity(x.Call.Args[0]) != ssa.Value(f.Params[0]) || stripIdentity(x.Call.Args[1]) != ssa.Value(f.Params[1]) {
+				return false
+			}
+			if strings.HasPrefix(g.String(), "slices.Contains[") || strings.HasPrefix(g.String(), "slices.Contains(") || g.String() == "slices.Contains" {
+				return true
+			}
+			if g == f {
+				return false
+			}
+			ok, _ := isMembershipPredicateD(g, depth+1)
+			return ok
+		case *ssa.Phi:
+			for i, e := range x.Edges {
+				if k, ok := e.(*ssa.Const); ok && k.Value != nil && k.Value.Kind() == constant.Bool && constant.BoolVal(k.Value) && emptyEdge(x.Block().Preds[i], x.Block()) {
+					acceptsEmpty = true
+					continue
+				}
+				if !member(e, d+1) {
+					return false
+				}
+			}
+			return true
+		}
+		return false
+	}
+	if !member(rets[0].Results[0], 0) {
+		return false, false
+	}
+	return true, acceptsEmpty
+}
+
+func isMembershipPredicateD(f *ssa.Function, depth int) (bool, string) {
+	if depth > 2 {
+		return false, "too deep"
+	}
+	return isMembershipPredicate(f)
 }
